@@ -400,6 +400,9 @@ PROBES = [
     ("default", "{{ f(\ufb01=1, fi=2) }}"),
     ("default", "{% set \u00b5 = 1 %}{% set \u03bc = 2 %}"),
     ("default", "{% macro m(a=1, b) %}{% endmacro %}"),
+    ("default", "{% set b | default(x) %}a{% endset %}"), ("default", "{% set b | replace(x, y) | default(z) %}{% endset %}"),
+    ("default", "{% filter replace(x, y) %}{% endfilter %}"), ("default", "{% call(a) f(x)|g(y) %}{{ z }}{% endcall %}"),
+    ("default", "{% for a in b if c|d(e) %}{% else %}{{ f }}{% endfor %}"),
     ("default", "{{ \u0663.\u0665 }}"), ("default", "{{ 1e\u0665 }}"), ("default", "{{ 0x\u0663 }}"),
     ("default", "{% macro m(caller) %}{{ caller() }}{% endmacro %}"),
     ("default", "{% for loop in x %}{% endfor %}"),
